@@ -108,8 +108,8 @@ def simulate(b: Built, vals: list[dict]) -> list[Obs]:
     sigs += [b.bodies[i].runnable for i in ts]
     sigs += [b.bodies[i].data_in.as_value() for i in mids]
     sigs += [b.bodies[i].data_out.as_value() for i in mids]
-    sigs += [r.call_tuple[2] for r in sites]
-    sigs += [r.call_tuple[1].as_value() for r in sites]
+    sigs += [(r.call_tuple[2] if r.call_tuple is not None else C(0, 1)) for r in sites]
+    sigs += [(r.call_tuple[1].as_value() if r.call_tuple is not None else C(0, 0)) for r in sites]
     sigs += [r.w for r in sites]
     sigs += [r.wa for r in sites]
     sigs += [(r.res if r.res is not None else C(0, 0)) for r in sites]
